@@ -55,16 +55,9 @@ def plan(tier):
 
 def collect_refs(node, out=None):
     out = [] if out is None else out
-    if isinstance(node, dict):
-        if "$ref" in node and isinstance(node["$ref"], str):
-            out.append(node["$ref"])
-        for key, val in node.items():
-            if key in ("const", "enum", "default"):
-                continue
-            collect_refs(val, out)
-    elif isinstance(node, list):
-        for val in node:
-            collect_refs(val, out)
+    for schema in refmodel.walk_schemas(node):
+        if isinstance(schema.get("$ref"), str):
+            out.append(schema["$ref"])
     return out
 
 
